@@ -129,7 +129,7 @@ func (ex *Exec) VerifyFunc(ct *Contract, fn *ssa.Function) *FnReport {
 	}
 	rep.NInvs = len(ct.Invs)
 	if ct.HasAssigns && !ct.FrameAssumed {
-		ex.frameObligations(ct, fr.entry, out)
+		ex.frameObligations(ct, fr.entry, out, fr.pointeeFrames(ct))
 	}
 	if ct.FrameAssumed {
 		ex.trustedUsed["frame of "+ct.Key()+" (assigns "+strings.Join(ct.Assigns, ", ")+") is assumed, not verified"] = true
@@ -139,7 +139,7 @@ func (ex *Exec) VerifyFunc(ct *Contract, fn *ssa.Function) *FnReport {
 
 // frameObligations: for a verified function with an 'assigns' clause, every heap component not listed
 // keeps, at every object that existed on entry, the value it had on entry.
-func (ex *Exec) frameObligations(ct *Contract, entry, out *State) {
+func (ex *Exec) frameObligations(ct *Contract, entry, out *State, pointees map[string][]*Term) {
 	f := ex.f
 	var names []string
 	for n := range ex.compSort {
@@ -161,6 +161,13 @@ func (ex *Exec) frameObligations(ct *Contract, entry, out *State) {
 		if strings.HasPrefix(n, "L.") || strings.HasPrefix(n, "IT.") || strings.HasPrefix(n, "G.") || listed(n) {
 			continue
 		}
+		// 'assigns *p': the fields of the struct p points to may change at p, and only there
+		var except []*Term
+		for prefix, ps := range pointees {
+			if strings.HasPrefix(n, prefix) {
+				except = append(except, ps...)
+			}
+		}
 		s := ex.compSort[n]
 		before := ex.comp(entry, n, s)
 		after := ex.comp(out, n, s)
@@ -173,7 +180,11 @@ func (ex *Exec) frameObligations(ct *Contract, entry, out *State) {
 		r := f.Fresh("frame.r", ks)
 		var goal *Term
 		if ks == SInt {
-			goal = f.Implies(f.And(f.Gt(r, f.Int(0)), f.Lt(r, entry.frontier)), f.Eq(f.Select(after, r), f.Select(before, r)))
+			pre := f.And(f.Gt(r, f.Int(0)), f.Lt(r, entry.frontier))
+			for _, p := range except {
+				pre = f.And(pre, f.Neq(r, p))
+			}
+			goal = f.Implies(pre, f.Eq(f.Select(after, r), f.Select(before, r)))
 		} else {
 			goal = f.Eq(f.Select(after, r), f.Select(before, r))
 		}
